@@ -108,7 +108,7 @@ func ruleC05R1(c *Ctx) {
 	// the worker reads the channel the orchestrator made: input parameter flows into NewLogProcessingWorker
 	okFlow := false
 	for _, s := range c.callsTo(starter, anchorPred(aNewLPW)) {
-		if p, ok := resolve(s.Common().Args[1]).(*ssa.Parameter); ok && p.Name() == "input" {
+		if p, ok := resolve(s.Common().Args[1]).(*ssa.Parameter); ok && len(starter.Params) == 6 && p == starter.Params[2] {
 			okFlow = true
 		}
 	}
@@ -441,7 +441,9 @@ func ruleC05R6(c *Ctx) {
 				}
 				// a leading %s is accepted when it is a timestamp rendered by (time.Time).Format with a fixed-width,
 				// most-significant-first layout, in UTC (local time goes backwards when the offset drops)
-				if len(verbs) >= 2 && verbs[0] == "%s" && strings.HasPrefix(f, "%s") && len(zeroPadVerbs.FindAllString(f, -1)) == len(verbs)-1 {
+				nPad := len(zeroPadVerbs.FindAllString(f, -1))
+				trailingSuffix := strings.HasSuffix(f, "%s") && len(verbs) >= 3
+				if len(verbs) >= 2 && verbs[0] == "%s" && strings.HasPrefix(f, "%s") && nPad >= 1 && (nPad == len(verbs)-1 || (trailingSuffix && nPad == len(verbs)-2)) {
 					elems := varargElems(s.Common().Args[1])
 					for _, e := range elems {
 						cl, ok := strip(unbox(e)).(*ssa.Call)
@@ -457,6 +459,13 @@ func ruleC05R6(c *Ctx) {
 							c2, ok := x.(*ssa.Call)
 							return ok && c2.Common().StaticCallee() != nil && extName(c2.Common().StaticCallee()) == "(time.Time).UTC"
 						})
+						// the rendering must not be coarser than what the sequence logic compares: the counters restart when the
+						// nanosecond value grows, so anything short of nine fraction digits gives two chunks of one
+						// millisecond (or second) the same id
+						if fracDigits(constant.StringVal(lay.Value)) != 9 {
+							whyFmt = fmt.Sprintf("the timestamp part of the id has %d fraction digits, but the sequence number restarts whenever the nanosecond clock value grows: two chunks created within one unit of the rendered resolution get the same id — the second buffer file overwrites the first, the pending-ACK map holds one entry for two chunks", fracDigits(constant.StringVal(lay.Value)))
+							continue
+						}
 						if !utc {
 							whyFmt = "the timestamp part of the id is rendered in the local zone (no .UTC() before Format): ids go backwards when the host's UTC offset drops (end of DST), and the two sorts by id then put newer chunks ahead of older ones"
 							continue
@@ -509,4 +518,20 @@ func fixedWidthTimeLayout(l string) bool {
 		}
 	}
 	return pos == len(order)
+}
+
+// fracDigits: number of fixed fraction digits of a time layout (".000" -> 3), 0 if none
+func fracDigits(l string) int {
+	i := strings.LastIndexAny(l, ".,")
+	if i < 0 {
+		return 0
+	}
+	n := 0
+	for _, ch := range l[i+1:] {
+		if ch != '0' {
+			return 0
+		}
+		n++
+	}
+	return n
 }
